@@ -132,8 +132,11 @@ func TestVerifC14(t *testing.T) {
 	hlRegisterProtos()
 	defTrie := trackerdb.TrieMemoryConfig
 	defer func() { trackerdb.TrieMemoryConfig = defTrie }()
-	nh := c.N(4, 24)
-	blocks := c.N(56, 120)
+	nh := c.N(3, 12)
+	blocks := c.N(56, 100)
+	if c.Lane == "race" && !c.Quick() {
+		nh = 6 // the race detector slows the ledger about fourfold; keep the lane inside the thorough budget
+	}
 	for h := 0; h < nh && c.Violations() < 5; h++ {
 		r := c.Rand(14, uint64(h))
 		cfg := hlConfig{
@@ -299,7 +302,7 @@ func TestVerifC14(t *testing.T) {
 		}
 		a.close()
 	}
-	c.Require("c14.rounds_compared", int64(c.N(12, 150)))
-	c.Require("c14.restart_between_stages", int64(c.N(3, 30)))
-	c.Require("c14.files_read", int64(c.N(3, 30)))
+	c.Require("c14.rounds_compared", int64(c.N(12, 80)))
+	c.Require("c14.restart_between_stages", int64(c.N(3, 20)))
+	c.Require("c14.files_read", int64(c.N(3, 20)))
 }
